@@ -166,6 +166,8 @@ func c07Pipeline(inputs []c07Input, langs []string, builders bool) (*codegen.Pip
 			ci.JSONSchema = &codegen.JSONSchemaInput{Path: in.path, Package: in.pkg}
 		case "openapi":
 			ci.OpenAPI = &codegen.OpenAPIInput{Path: in.path, Package: in.pkg}
+		case "cue":
+			ci.Cue = &codegen.CueInput{Entrypoint: in.path, Package: in.pkg}
 		}
 		p.Inputs = append(p.Inputs, ci)
 	}
